@@ -47,6 +47,24 @@ CHECKS = {
         "depth 1..4 in every operand context x 7 variable names (plain field, inner segment, namespaced).",
    note="Trusted: Lean kernel, standard axioms, Spec/Reroot.lean, harness.",
    design="§6 C17", technique="Lean 4 proof (structural recursion along paths) + differential correspondence"),
+ "C05": dict(
+   text="Lean 4: the executable precedence-climbing model of the SLY parser is run against the real parser on the reference renderings "
+        "(minimal and full parenthesisation, 5 optional-whitespace styles) of every operator single / pair / triple arrangement and random "
+        "full-grammar trees, where the renderings come from an independent reference printer written in Lean from OData 4.01 §5.1.1.14; "
+        "theorems tie the model's levels to the extracted yacc declaration and to the specification's table; the token-level round-trip "
+        "theorem parse_printToks (every printable tree, both renderings, every whitespace style) is in Props/C05Roundtrip.lean when present.",
+   note="Trusted: Lean kernel, standard axioms, Spec/RefPrinter.lean, harness. Modelled, not verified: SLY's LALR(1) construction and driver, CPython's re "
+        "(tied by the tie theorems on the extracted rules/productions/precedence and by the differential run incl. exhaustive token sequences in C10).",
+   design="§6 C05", technique="Lean 4 proof over hand-written parser model + generated-table tie theorems + differential correspondence on reference renderings"),
+ "C13": dict(
+   text="Lean 4: string-exact model of AstToODataVisitor; theorems show its precedence table is an order-embedding of the specification's levels "
+        "(level_prec) and that it parenthesises wherever the reference printer's minimal rule requires (paren_where_needed_*), for every "
+        "operand of every operator; printer table tied to roundtrip.PRECEDENCE by decide; model compared with the real printer by string "
+        "equality on exhaustive small trees and random trees; the round trip render->parse->equal and the fixpoint are executed on the real "
+        "code for every generated tree. One known finding (identifier `not`) has a Lean negation witness.",
+   note="Trusted: Lean kernel, standard axioms, harness. Partial: the character-level step lex(render e) = tokens is covered by the correspondence run and by the "
+        "lexer lemmas of C06/C19, not yet by one end-to-end theorem. Five printer defects were repaired first (fix: 6e13462 b3ff485 5b649a4 51169b6).",
+   design="§6 C13", technique="Lean 4 proof (order-embedding of precedence tables, paren soundness) + tie theorem + string-exact differential correspondence + executed round trip"),
 }
 NOT_APPLICABLE = {}
 
